@@ -16,7 +16,7 @@ POOL = ['x', 'y', 'z', 'w']
 
 
 def shards(tier, seed, scale=1.0):
-    return common.rand_shards(ID, tier, seed, scale, 4000, 150000)
+    return common.rand_shards(ID, tier, seed, scale, 8000, 150000)
 
 
 def cases(desc):
